@@ -48,14 +48,17 @@ func (f *MakeLoadForm) Call(s *slip.Scope, args slip.List, depth int) (form slip
 func ObjectLoadForm(obj slip.Object, follow bool) (form slip.Object) {
 Top:
 	switch to := obj.(type) {
+	case nil:
+		// nil, the empty list, is its own load form.
 	case slip.Symbol:
-		obj = nil
 		if fi := slip.FindFunc(string(to)); fi != nil {
 			obj = fi
 		} else if class := slip.FindClass(string(to)); class != nil {
 			obj = class
 		} else if v, has := slip.GetVar(to); has {
 			obj = v
+		} else {
+			slip.PrintNotReadablePanic(slip.NewScope(), 0, to, "Can not make a load form for %s.", to)
 		}
 		goto Top
 	case slip.Instance:
